@@ -73,7 +73,7 @@ class EndToEndStream(Stream):
         from reuse import comment
         shorthands = list(comment.NAME_STYLE_MAP)
         # (a) table sweep
-        sweeps = 30 if thorough else 3
+        sweeps = 24 if thorough else 4
         for sweep in range(sweeps):
             order = list(entries)
             rng.shuffle(order)
@@ -92,7 +92,7 @@ class EndToEndStream(Stream):
                     files.append({"name": name, "body": body, "entry": [kind, key, style], "kind": "table"})
                 yield dict(o, files=files, cpr=cpr, lic=lic, con=con)
         # (b) singles
-        n = 2500 if thorough else 260
+        n = 2500 if thorough else 420
         for _ in range(n):
             o = _opts(rng, True)
             cpr, lic, con = G.rand_request(rng, tricky=0.15)
